@@ -392,6 +392,11 @@ func (h *H) simpleCodecs() {
 				h.codecCase(c, pdf.V1_7, d, k < 2, 1)
 			}
 		}
+		// code-width switches and the table-full clear, with old-entry and newest-entry (KwKwK) codes
+		// on either side of them
+		for i, d := range lzwBoundaryInputs(e.Rand, !e.Thorough) {
+			h.codecCase(c, pdf.V1_7, d, len(d) < 8000 || i%4 == 0, 0)
+		}
 		// exactly at the table limits: walk the length in steps of 1 around the points where
 		// the code width changes for incompressible data
 		for _, n := range around(253, 254, 255, 509, 510, 511) {
@@ -402,6 +407,71 @@ func (h *H) simpleCodecs() {
 			h.codecCase(c, pdf.V1_7, d, true, 0)
 		}
 	}
+}
+
+
+// lzwBoundaryInputs: inputs that bring the LZW encoder to a chosen number of emitted codes with
+// an incompressible prefix (no byte pair occurs twice, so every code is a single literal and the
+// prefix of p bytes yields exactly p-1 codes plus the pending one), followed by tails that make
+// the next codes (a) old entries, (b) the newest entry (KwKwK: runs and short periods), random
+// data, or the end of data.  p is swept over windows around the code-width switches
+// (255, 767, 1791 codes, minus EarlyChange) and the table-full clear (3839 codes).
+func lzwBoundaryInputs(rnd interface{ UintN(uint) uint }, quick bool) [][]byte {
+	seen := map[[2]byte]bool{}
+	prefix := make([]byte, 0, 4000)
+	for len(prefix) < 3900 {
+		b := byte(rnd.UintN(256))
+		if len(prefix) > 0 {
+			k := [2]byte{prefix[len(prefix)-1], b}
+			if seen[k] {
+				continue
+			}
+			seen[k] = true
+		}
+		prefix = append(prefix, b)
+	}
+	rep := func(b byte, n int) []byte { return bytes.Repeat([]byte{b}, n) }
+	var res [][]byte
+	for _, t := range []int{255, 767, 1791, 3839} {
+		win := 6
+		if t == 3839 {
+			win = 10
+		}
+		for p := t - win; p <= t+win; p++ {
+			pre := prefix[:p]
+			last := pre[p-1]
+			tails := [][]byte{
+				nil,
+				rep(last, 40),
+				rep(last^0x55, 60),
+				rep(0, 3000),
+				bytes.Repeat([]byte{last, last ^ 1}, 40),
+				bytes.Repeat([]byte{7, 8, 9}, 30),
+				append(rep(last, 5), prefix[100:160]...),
+				prefix[p : p+50],
+			}
+			for i, tl := range tails {
+				if quick && t != 3839 && i%2 == 1 && p%2 == 1 {
+					continue
+				}
+				res = append(res, append(append([]byte{}, pre...), tl...))
+			}
+		}
+	}
+	// noisy rows followed by blank rows: the table fills up inside the run
+	for d := -40; d <= 40; d++ {
+		n := 3839 + d
+		noise := make([]byte, n)
+		for i := range noise {
+			noise[i] = byte(rnd.UintN(256))
+		}
+		res = append(res, append(noise, rep(0, 30000)...))
+		if !quick || d%4 == 0 {
+			noise2 := append([]byte{}, noise...)
+			res = append(res, append(noise2, bytes.Repeat([]byte{1, 2}, 4000)...))
+		}
+	}
+	return res
 }
 
 // ---------------------------------------------------------------- predictors (package predict)
